@@ -545,20 +545,19 @@ def rule_observers(ctx, R, parts=('wasted', 'skip', 'idle', 'clear')):
                     continue
                 for cb in closure_args_of_call(ctx.F, b, c):
                     ctx.read(cb)
+                    from lib import eval_option_paths
                     good = True
                     seen_none = False
-                    for d in cb.defs().get(0, []):
-                        if d[0] != 'assign' or d[3]['rv']['k'] != 'agg':
-                            continue
-                        conds = path_conditions(cb, d[1])
+                    for conds, tag in eval_option_paths(cb):
                         wasted = any(k.kind == 'discr' and k.variants == {'Wasted'} for k in conds) and any(
                             k.kind == 'discr' and k.variants == {'Ok'} for k in conds)
-                        v = d[3]['rv'].get('v')
-                        if v == 'None':
+                        if tag == 'None':
                             seen_none = True
                             good = good and wasted
-                        elif v == 'Some':
+                        elif tag == 'Some':
                             good = good and not wasted
+                        else:
+                            good = False
                     detail = 'filter_map drops exactly Ok(Wasted): %s' % (good and seen_none)
                     ok = ok or (good and seen_none)
         ctx.check(ok, R, b, tname + ':idle-excludes-expired', detail[:200],
